@@ -393,6 +393,8 @@ def distance_wei_floyd(adjacency, transform=None):
             elif transform == 'inv':
                 #SPL = invert(adjacency)
                 SPL = 1 / adjacency
+                # absent connections, however the zero is stored (1 / -0.0 is -inf)
+                SPL[adjacency == 0] = np.inf
             else:
                 raise ValueError("Unexpected transform type. Only 'log' and " +
                                  "'inv' are accepted")
